@@ -85,3 +85,19 @@ def random_cyclic(rng, n, m, tries=200):
             return {"nodes": sorted(G.nodes()), "edges": edges, "ew": [1] * len(edges), "nw": [1] * n,
                     "proutes": [], "pweights": []}
     return None
+
+
+def motifs():
+    """planted-flow instances on the hand-picked larger shapes of Universe!MotifShapes -> (dag entries, cyclic entries)"""
+    import vlib
+    ms = vlib.universe("motif", 6, maxe=0, k=2, w=2, l=1, cap=6)
+    cyc = [m for m in ms if _has_cycle(m)]
+    dag = [m for m in ms if not _has_cycle(m)]
+    return dag, cyc
+
+
+def _has_cycle(u):
+    import networkx as nx
+    G = nx.DiGraph()
+    G.add_edges_from([tuple(e) for e in u["edges"]])
+    return not nx.is_directed_acyclic_graph(G)
